@@ -23,7 +23,7 @@ C == INSTANCE Components WITH
        FAdd <- BAdd, FSub <- BSub, FMul <- BMul, FNeg <- BNeg, FInv <- BInv,
        FInt <- BInt, FBit <- BBit, FShr <- BShr, FLow <- BLow, FPow2 <- BPow2,
        NB <- 255, EdD <- BEdwardsD, ScalarBits <- 252,
-       OrderM1 <- BigSub(RJ, BigOne), OrderBits <- RJBits, EightInvBits <- EightInvB
+       OrderM1 <- BigSub(RJ, BigOne), OrderBits <- RJBits, EightInvBits <- EightInvB, AdvMode <- "honest"
 
 Rec == ndJsonDeserialize(IOEnv.TRACE)
 
